@@ -137,8 +137,9 @@ LeavesOf(S, p) == IF p = 0 THEN <<>>
                        IN cat(1)
 NLeaves(S, p) == IF S.part[p].batch THEN Len(S.part[p].leaves) ELSE 1   \* Buffer / Sink count direct members
 RECURSIVE SumValue(_, _, _)
-SumValue(S, ls, i) == IF i > Len(ls) THEN 0 ELSE S.part[ls[i]].value + SumValue(S, ls, i + 1)
-ValueOf(S, p) == IF S.part[p].batch THEN SumValue(S, S.part[p].leaves, 1) ELSE S.part[p].value
+RECURSIVE ValueOf(_, _)
+SumValue(S, ls, i) == IF i > Len(ls) THEN 0 ELSE ValueOf(S, ls[i]) + SumValue(S, ls, i + 1)
+ValueOf(S, p) == IF S.part[p].batch THEN SumValue(S, S.part[p].leaves, 1) ELSE S.part[p].value   \* members may be batches
 
 (* add_routing_history on a part or on a batch and all the parts it contains *)
 RECURSIVE AddHist(_, _, _)
@@ -170,11 +171,19 @@ Generate(S, s) ==
     LET b == cfg.devs[s].bsrc
         k == S.dev[s].supplied + 1 IN       \* this is the k-th generation (every earlier one was supplied)
     IF b < 0 \/ (cfg.devs[s].bmix /\ k % 2 = 0) THEN NewPart(S, cfg.devs[s].pval, FALSE, <<>>)
-    ELSE LET RECURSIVE mk(_, _)
-             mk(T, i) == IF i > b THEN T ELSE mk(NewPart(T, cfg.devs[s].pval, FALSE, <<>>), i + 1)
-             T1 == mk(S, 1)
-             first == Len(S.part) + 1 IN
-         NewPart(T1, 0, TRUE, [i \in 1..b |-> first + i - 1])
+    ELSE LET RECURSIVE mk(_, _, _)
+             mk(T, i, m) == IF i > m THEN T ELSE mk(NewPart(T, cfg.devs[s].pval, FALSE, <<>>), i + 1, m)
+             n == cfg.devs[s].bnest
+             base == Len(S.part) IN
+         IF n > 0
+         THEN \* a batch of b batches of n new parts each (a user-written generator: the parts of the first
+              \* inner batch, that batch, the parts of the second, ..., the outer batch last)
+              LET RECURSIVE mkin(_, _)
+                  mkin(T, i) == IF i > b THEN T
+                                ELSE LET f == Len(T.part) + 1 IN
+                                     mkin(NewPart(mk(T, 1, n), 0, TRUE, [j \in 1..n |-> f + j - 1]), i + 1)
+              IN NewPart(mkin(S, 1), 0, TRUE, [i \in 1..b |-> base + i * (n + 1)])
+         ELSE NewPart(mk(S, 1, b), 0, TRUE, [i \in 1..b |-> base + i])
 
 AddValue(S, d, v) == IF v = 0 THEN S ELSE [S EXCEPT !.dev[d].value = @ + v, !.dev[d].nvh = @ + 1]
 
